@@ -13,6 +13,11 @@ reading the result twice gives the same value.
 
 The case generator and the fold helper are those of `vlib.c01_scenarios`; a
 case dict is literal, replay re-executes it exactly.
+
+reservoir_unequal - FixedSizeSample states of DIFFERENT max_size merged in both
+directions (third audit round): generator and oracle are shared with C01, see
+`vlib.c01_scenarios` ("merge only ever modifies its receiver" - and a merge
+that fails must not leave a half-merged receiver behind).
 """
 
 from __future__ import annotations
@@ -24,15 +29,23 @@ from vlib import agg_adapters as A
 from vlib import c01_scenarios as S1
 
 N_CASES = {'quick': 96, 'thorough': 3000}
+N_UNEQUAL = {'quick': 512, 'thorough': 16000}
 
 
 def plan_slice(tier, i, k):
-  return [['reservoir_many', idx] for idx in range(N_CASES[tier]) if idx % k == i]
+  return S1.plan_slice(tier, i, k, N_CASES[tier], N_UNEQUAL[tier])
 
 
 def run_item(ctx, rseed, tier, item):
   name, idx = item
   rng = random.Random(A.stable_int('C11-scenario', rseed, name, idx))
+  if name == 'reservoir_unequal':
+    # samplers of different max_size merged in both directions; generator and
+    # oracle live in vlib/c01_scenarios.py (see its docstring)
+    case = S1.gen_reservoir_unequal(rng, tier, idx)
+    case['prop'] = 'C11'
+    S1.check(ctx, case)
+    return
   case = S1.gen_reservoir_many(rng, tier)
   del case['fold']
   folds = ['left', 'tree', 'reversed', 'shuffled'] + (['nary'] * 2 if case['mode'] == 'aggfn'
@@ -43,6 +56,9 @@ def run_item(ctx, rseed, tier, item):
 
 
 def check(ctx, case):
+  if case.get('scenario') == 'reservoir_unequal':
+    S1.check(ctx, case)
+    return
   with warnings.catch_warnings():
     warnings.simplefilter('ignore')
     _check_reservoir_many(ctx, case)
